@@ -158,3 +158,35 @@ def expr_num(v):
     if isinstance(v, Agg) and v.ty == "Expression" and v.variant == "Number":
         return v.fields[0]
     return None
+
+
+def mk_tx(T, **over):
+    """tir::Tx with empty defaults"""
+    d = dict(fees=T.num(0), references=VecM([]), inputs=VecM([]), outputs=VecM([]), validity=none(), mints=VecM([]),
+             burns=VecM([]), adhoc=VecM([]), collateral=VecM([]), signers=none(), metadata=VecM([]))
+    for k, v in over.items():
+        d[k] = VecM(v) if isinstance(v, list) else v
+    return T.st("Tx", **d)
+
+
+def utxo_ref(T, txid, index):
+    return T.st("UtxoRef", txid=VecM(list(txid)), index=index)
+
+
+def lex_lt(eng, a, b):
+    """strict lexicographic order of two equal-length byte lists (symbolic bytes allowed)"""
+    res = False
+    for x, y in reversed(list(zip(a, b))):
+        X, Y = eng.to_bv(x, 8), eng.to_bv(y, 8)
+        lt = z3.ULT(X, Y) if (is_sym(x) or is_sym(y)) else (x < y)
+        eq = (X == Y) if (is_sym(x) or is_sym(y)) else (x == y)
+        res = b_or(lt, b_and(eq, res))
+    return res
+
+
+def bytes_eq(eng, a, b):
+    return b_and(*[(eng.to_bv(x, 8) == eng.to_bv(y, 8)) if (is_sym(x) or is_sym(y)) else (x == y) for x, y in zip(a, b)])
+
+
+def z3b(x):
+    return z3.BoolVal(x) if isinstance(x, bool) else x
